@@ -79,9 +79,11 @@ def check_value(ir, t, v, path, out, nillable=True):
         return
     if 'array' in t:
         inner = t['array']
-        imn, imx = inner.get('min_occurs', 0), 10 ** 9
+        imn, imx = inner.get('min_occurs', 0), inner.get('max_occurs', 10 ** 9)
         if len(v) < imn:
             out.append((path, 'min_occurs'))
+        if len(v) > imx:
+            out.append((path, 'max_occurs'))
         for i, it in enumerate(v):
             check_value(ir, inner, it, '%s[%d]' % (path, i), out, inner.get('nillable', True))
         return
@@ -193,7 +195,8 @@ def dense_value(rng, ir, t, depth=3):
                 out[fn] = x
         return out
     if 'array' in t:
-        return [dense_value(rng, ir, t['array'], depth - 1) for _ in range(rng.randint(1, 2))]
+        n_ = min(max(rng.randint(1, 2), t['array'].get('min_occurs', 0)), t['array'].get('max_occurs', 10 ** 9))
+        return [dense_value(rng, ir, t['array'], depth - 1) for _ in range(n_)]
     if 'seq' in t:
         mx = 2 if t['max'] == 'unbounded' else min(2, t['max'])
         return [dense_value(rng, ir, t['seq'], depth - 1) for _ in range(max(1, mx, t.get('min_occurs', 0)))]
@@ -298,8 +301,10 @@ def boundary_values(rng, t, exhaustive8=False, lexical=True):
                 out.append((('COUNT', c), 'count_%d' % c))
         return out
     if 'array' in t:
-        for c in (0, 1, 3):
-            out.append((('COUNT', c), 'count_%d' % c))
+        imn_, imx_ = t['array'].get('min_occurs', 0), t['array'].get('max_occurs')
+        for c in sorted(set([0, 1, 3, imn_ - 1, imn_, imn_ + 1] + ([imx_ - 1, imx_, imx_ + 1, imx_ + 2] if imx_ is not None else []))):
+            if c >= 0:
+                out.append((('COUNT', c), 'count_%d' % c))
         return out
     if 'ref' in t:
         return out
